@@ -1165,17 +1165,23 @@ def rule_TK(run: Run) -> RuleResult:
                 if e.kind == "op" and e.op == op and isinstance(e.target, Child) and e.target.path == "params[*]" and e.whole:
                     visits = True
             m = None
+            def _match_test(term, pol0):
+                """(is the MATCH test, polarity): a match object is always true, so ``match(...) is None`` is ``not match(...)``."""
+                k_, pol = Frame.norm_cond(term, pol0)
+                if k_ == f"cmp:Is({MATCH},Const(None))":
+                    k_, pol = MATCH, not pol
+                return k_ == MATCH, pol
             for c in p.conds:
-                k_, pol = Frame.norm_cond(c[2], c[1])
-                if k_ == MATCH:
+                is_m, pol = _match_test(c[2], c[1])
+                if is_m:
                     m = pol
             m_from_filter = False
             if m is None:
                 # the keys may be pre-filtered by a comprehension: every element that was kept satisfies the filter
                 for e in p.events:
                     if e.kind == "filter" and e.target is not None and not e.via:
-                        k_, pol = Frame.norm_cond(e.target.key(), True)
-                        if k_ == MATCH:
+                        is_m, pol = _match_test(e.target.key(), True)
+                        if is_m:
                             m = pol
                             m_from_filter = True
                             if pol is False:
